@@ -1,10 +1,13 @@
 package main
 
 import (
+	"encoding/json"
 	"flag"
 	"fmt"
 	"os"
 	"path/filepath"
+	"runtime/debug"
+	"runtime/pprof"
 	"sort"
 	"strings"
 	"time"
@@ -66,6 +69,16 @@ func main() {
 		fmt.Fprintln(os.Stderr, "usage: govc verify|check ...")
 		os.Exit(2)
 	}
+	if os.Getenv("GOGC") == "" {
+		debug.SetGCPercent(400)
+	}
+	if pf := os.Getenv("GOVC_PROF"); pf != "" {
+		f, err := os.Create(pf)
+		if err == nil {
+			_ = pprof.StartCPUProfile(f)
+			defer pprof.StopCPUProfile()
+		}
+	}
 	switch os.Args[1] {
 	case "verify":
 		cmdVerify(os.Args[2:])
@@ -73,6 +86,58 @@ func main() {
 		cmdCheck(os.Args[2:])
 	case "ssa":
 		cmdSSA(os.Args[2:])
+	case "replay":
+		// re-run the recorded failing input of a replay file against the real code
+		repo := "/repo"
+		args := os.Args[2:]
+		if len(args) >= 2 && args[0] == "-repo" {
+			repo, args = args[1], args[2:]
+		}
+		if len(args) != 1 {
+			fmt.Fprintln(os.Stderr, "usage: govc replay [-repo dir] file.json")
+			os.Exit(2)
+		}
+		data, err := os.ReadFile(args[0])
+		if err != nil {
+			fmt.Fprintln(os.Stderr, err)
+			os.Exit(2)
+		}
+		var rp struct {
+			Obligation string      `json:"obligation"`
+			Replay     string      `json:"replay"`
+			Test       string      `json:"replay_test"`
+			Input      interface{} `json:"input"`
+		}
+		_ = json.Unmarshal(data, &rp)
+		fmt.Println("obligation:", rp.Obligation)
+		fmt.Println("verdict   :", rp.Replay)
+		if rp.Test == "" {
+			fmt.Println("no failing input was recorded for this violation (no-failing-input-found)")
+			return
+		}
+		in, _ := json.Marshal(rp.Input)
+		fmt.Println("input     :", string(in))
+		out, errS := runReplayTest(repo, rp.Test)
+		if errS != "" {
+			fmt.Println(errS)
+			os.Exit(2)
+		}
+		for _, l := range strings.Split(out, "\n") {
+			if strings.HasPrefix(l, "GOVC-REPLAY") {
+				fmt.Println("real code :", l)
+			}
+		}
+	case "owners":
+		if err := loadSpecs("/verif/spec"); err != nil {
+			fmt.Fprintln(os.Stderr, err)
+			os.Exit(2)
+		}
+		w, err := loadWorld("/repo", defaultSpecs("/repo", "/verif"))
+		if err != nil {
+			fmt.Fprintln(os.Stderr, err)
+			os.Exit(2)
+		}
+		cmdOwners(w)
 	default:
 		fmt.Fprintln(os.Stderr, "unknown command")
 		os.Exit(2)
